@@ -221,6 +221,7 @@ type vf17Params struct {
 }
 
 type vf17Inst struct {
+	sameInstReopen bool // Close + Open of the same cache value happened in this case
 	r    *verifkit.Run
 	idx  int
 	p    vf17Params
@@ -649,7 +650,11 @@ func (k *vf17Inst) drain(scenario string) (vf17Snap, bool) {
 		case s.st.active != 0:
 		case inMap && s.flushObjs[a]:
 			stuck = true
-			k.r.Violation(fmt.Sprintf("stuck|marked-in-flight-forever|%s|%s|%s", k.st.attemptState(a), k.st.anyFailed(), scenario),
+			reopened := ""
+			if k.sameInstReopen {
+				reopened = "|after-reopen-of-the-same-cache-instance"
+			}
+			k.r.Violation(fmt.Sprintf("stuck|marked-in-flight-forever|%s|%s|%s%s", k.st.attemptState(a), k.st.anyFailed(), scenario, reopened),
 				fmt.Sprintf("case %d: object %s is still in the cache %.0fs after writes and faults stopped; it is marked as being flushed (flushObjs) but no flush call is active, so the scheduler skips it forever",
 					k.idx, vf17Short(a), time.Since(start).Seconds()), k.dump(s))
 		case !inMap:
@@ -757,6 +762,10 @@ func (k *vf17Inst) restart(fresh bool) bool {
 		return false
 	}
 	k.restarts++
+	if !fresh {
+		k.sameInstReopen = true
+		k.r.Count("restarts_of_the_same_cache_instance", 1)
+	}
 	k.r.Count("restarts", 1)
 	k.logf("restart fresh=%v", fresh)
 	return true
